@@ -6,6 +6,7 @@ package c05
 
 import (
 	"context"
+	"encoding/json"
 	"errors"
 	"fmt"
 	"math"
@@ -47,7 +48,7 @@ func genScript(rt *rapid.T, race bool) Script {
 	s.Modern = rapid.IntRange(0, 3).Draw(rt, "modern") == 0
 	n := rapid.IntRange(1, 30).Draw(rt, "n")
 	for i := 0; i < n; i++ {
-		st := Step{Kind: rapid.SampledFrom([]string{"ccall", "ccall", "scall", "nested", "nested", "notify", "snotify", "release", "release", "close", "close", "close", "wait", "fail", "fail", "vanish", "late", "late", "latenotify", "sleep", "rejectnotes", "halfvanish", "badnotify", "sub", "sub", "unsub"}).Draw(rt, "kind")}
+		st := Step{Kind: rapid.SampledFrom([]string{"ccall", "ccall", "scall", "nested", "nested", "notify", "snotify", "release", "release", "close", "close", "close", "wait", "fail", "fail", "vanish", "late", "late", "latenotify", "sleep", "rejectnotes", "halfvanish", "badnotify", "sub", "sub", "unsub", "dupid"}).Draw(rt, "kind")}
 		st.Side = rapid.SampledFrom([]string{"client", "server"}).Draw(rt, "side")
 		st.I = rapid.IntRange(0, 7).Draw(rt, "i")
 		if race {
@@ -88,6 +89,7 @@ func genScript(rt *rapid.T, race bool) Script {
 type faultTransport struct {
 	inner  mcp.Transport
 	reject *atomic.Bool
+	conn   *faultConn // the connection made by Connect
 }
 
 func (t *faultTransport) Connect(ctx context.Context) (mcp.Connection, error) {
@@ -95,19 +97,40 @@ func (t *faultTransport) Connect(ctx context.Context) (mcp.Connection, error) {
 	if err != nil {
 		return nil, err
 	}
-	return &faultConn{Connection: c, reject: t.reject}, nil
+	t.conn = &faultConn{Connection: c, reject: t.reject}
+	return t.conn, nil
 }
 
 type faultConn struct {
 	mcp.Connection
 	reject *atomic.Bool
+	mu     sync.Mutex
+	calls  []jsonrpc.ID // ids of the calls this side has written, in order
 }
 
 func (c *faultConn) Write(ctx context.Context, msg jsonrpc.Message) error {
 	if r, ok := msg.(*jsonrpc.Request); ok && !r.IsCall() && c.reject.Load() {
 		return fmt.Errorf("%w: scripted rejection of notification %s", jsonrpc2.ErrRejected, r.Method)
 	}
+	if r, ok := msg.(*jsonrpc.Request); ok && r.IsCall() {
+		c.mu.Lock()
+		c.calls = append(c.calls, r.ID)
+		c.mu.Unlock()
+	}
 	return c.Connection.Write(ctx, msg)
+}
+
+// writeDuplicate puts a tools/call on the wire that re-uses the id of the i-th most recent call of this side,
+// as a peer with a faulty id allocator does (the session layer above knows nothing of it).
+func (c *faultConn) writeDuplicate(i, k int) error {
+	c.mu.Lock()
+	if len(c.calls) == 0 {
+		c.mu.Unlock()
+		return nil
+	}
+	id := c.calls[len(c.calls)-1-i%len(c.calls)]
+	c.mu.Unlock()
+	return c.Connection.Write(context.Background(), &jsonrpc.Request{ID: id, Method: "tools/call", Params: json.RawMessage(fmt.Sprintf(`{"name":"park","arguments":{"k":%d,"nested":false}}`, k))})
 }
 
 type handlerRec struct {
@@ -281,6 +304,8 @@ func runInBubble(s Script) (res vt.Result) {
 		return
 	}
 	var cs *mcp.ClientSession
+	clientFT := &faultTransport{inner: &mcp.IOTransport{Reader: b, Writer: b}, reject: rejectNotes["client"]}
+	dups := 0
 	cerr := make(chan error, 1)
 	go func() {
 		var e error
@@ -288,7 +313,7 @@ func runInBubble(s Script) (res vt.Result) {
 		if s.Modern {
 			opts = nil
 		}
-		cs, e = client.Connect(bg, &faultTransport{inner: &mcp.IOTransport{Reader: b, Writer: b}, reject: rejectNotes["client"]}, opts)
+		cs, e = client.Connect(bg, clientFT, opts)
 		cerr <- e
 	}()
 	connected := false
@@ -386,6 +411,14 @@ func runInBubble(s Script) (res vt.Result) {
 			}
 			res.Class("resource_subscriptions_come_and_go")
 			desc.WriteString(st.Kind[:1] + "u")
+		case "dupid": // the client's side of the wire carries a call that re-uses the id of an earlier, possibly still running call
+			if clientFT.conn != nil && dups < 4 {
+				dups++
+				k := 100 + dups
+				start("duplicate-id call written", func() error { clientFT.conn.writeDuplicate(st.I, k); return nil })
+				res.Class("call_reusing_an_id_on_the_wire")
+				desc.WriteString("D")
+			}
 		case "badnotify": // a notification whose params no JSON encoder can write (progress NaN): refused locally, nothing is sent
 			if st.Side == "client" {
 				start("client notify (unencodable)", func() error {
